@@ -325,3 +325,27 @@ def fresh(ty, base):
         ]
         return VList(n, cols, ty[1]), [n >= 0]
     return wrap(ty, z3.Const(fresh_name(base), sort_of(ty))), []
+
+
+# ---- Python <-> z3 string literals.  z3 prints characters above 255 as \u{hex} and reads \u{hex} / \uXXXX
+# in StringVal as escapes: decode on the way out, protect literal backslash-u on the way in.
+import re as _re_mod
+_Z3_ESC = _re_mod.compile(r"\\u\{([0-9a-fA-F]+)\}")
+
+
+def pystr(t):
+    """the Python string denoted by a z3 string literal"""
+    return _Z3_ESC.sub(lambda m: chr(int(m.group(1), 16)), t.as_string())
+
+
+_orig_StringVal = z3.StringVal
+
+
+def _safe_StringVal(s, ctx=None):
+    if isinstance(s, str) and "\\u" in s:
+        s = s.replace("\\u", "\\u{5c}u")
+    return _orig_StringVal(s, ctx)
+
+
+z3.StringVal = _safe_StringVal
+
